@@ -109,6 +109,9 @@ type Options struct {
 	Fuel          int32
 	// KeepOpen leaves runtime for the caller to close (returned in Result).
 	NoDigest bool
+	// OnReenter is called by the harness's re-entering host function around its
+	// nested api.Function.Call (true before, false after): an activation marker.
+	OnReenter func(enter bool)
 	// OnStep is called after every script step (debugging / extra monitors).
 	OnStep func(i int, mod api.Module)
 }
@@ -205,7 +208,7 @@ func canonVal(t wenc.ValType, v uint64) uint64 {
 }
 
 // BuildHost instantiates module "env" for p on rt.
-func BuildHost(ctx context.Context, rt wazero.Runtime, p *wgen.Program, hss *hostStates) error {
+func BuildHost(ctx context.Context, rt wazero.Runtime, p *wgen.Program, hss *hostStates, onReenter ...func(bool)) error {
 	if len(p.Host) == 0 {
 		return nil
 	}
@@ -252,7 +255,17 @@ func BuildHost(ctx context.Context, rt wazero.Runtime, p *wgen.Program, hss *hos
 					return
 				}
 				hs.depth++
+				for _, f := range onReenter {
+					if f != nil {
+						f(true)
+					}
+				}
 				res, err := mod.ExportedFunction("f0").Call(ctx, uint64(arg&0xff))
+				for _, f := range onReenter {
+					if f != nil {
+						f(false)
+					}
+				}
 				hs.depth--
 				if err != nil {
 					cls := ErrClass(err)
@@ -362,7 +375,7 @@ func (s *Session) Instantiate(p *wgen.Program, name string) *Inst {
 	hss := s.hosts[hn]
 	if hss == nil && len(p.Host) > 0 {
 		hss = &hostStates{m: map[api.Module]*hostState{}}
-		if err := BuildHost(s.Ctx, s.Rt, p, hss); err != nil {
+		if err := BuildHost(s.Ctx, s.Rt, p, hss, s.opt.OnReenter); err != nil {
 			t.add("host module error: %v", err)
 			return in
 		}
